@@ -146,217 +146,262 @@ private def unNT : Sem := ⟨.e, .stack 1 1 []⟩
 private def push1 : Sem := ⟨.e, .stack 0 1 []⟩
 
 /-- The semantic table: opcode name ↦ operand encoding and instruction class.
-Each row is the corresponding `case bytecode.X:` arm of `Thread.run` (vm/thread.go). -/
-def semOf : String → Option Sem
-  | "NOOP" => some (S 0 0)
-  | "RETURN" => some ⟨.e, .ret⟩
-  | "LOAD_VALUE_0" => some ⟨.e, .loadValue (some 0)⟩
-  | "LOAD_VALUE_1" => some ⟨.e, .loadValue (some 1)⟩
-  | "LOAD_VALUE_2" => some ⟨.e, .loadValue (some 2)⟩
-  | "LOAD_VALUE_3" => some ⟨.e, .loadValue (some 3)⟩
-  | "LOAD_VALUE8" => some ⟨.u8, .loadValue none⟩
-  | "LOAD_VALUE16" => some ⟨.u16, .loadValue none⟩
-  | "ADD" => some bin | "ADD_INT" => some binNT | "ADD_FLOAT" => some binNT
-  | "SUBTRACT" => some bin | "SUBTRACT_INT" => some binNT | "SUBTRACT_FLOAT" => some binNT
-  | "MULTIPLY" => some bin | "MULTIPLY_INT" => some binNT | "MULTIPLY_FLOAT" => some binNT
-  | "DIVIDE" => some bin | "DIVIDE_INT" => some ⟨.e, .stack 2 1 [(2, 0)]⟩ | "DIVIDE_FLOAT" => some binNT
-  | "EXPONENTIATE" => some bin | "EXPONENTIATE_INT" => some binNT
-  | "NEGATE" => some un | "NEGATE_INT" => some unNT | "NEGATE_FLOAT" => some unNT
-  | "NOT" => some unNT
-  | "BITWISE_NOT" => some un
-  | "TRUE" => some ⟨.e, .pushv .tru⟩
-  | "FALSE" => some ⟨.e, .pushv .fls⟩
-  | "NIL" => some ⟨.e, .pushv .nil⟩
-  | "POP" => some (S 1 0)
-  | "POP_2" => some (S 2 0)
-  | "PREP_LOCALS8" => some ⟨.u8, .prepLocals⟩
-  | "PREP_LOCALS16" => some ⟨.u16, .prepLocals⟩
-  | "SET_LOCAL_1" => some ⟨.e, .setLocal (some 1)⟩
-  | "SET_LOCAL_2" => some ⟨.e, .setLocal (some 2)⟩
-  | "SET_LOCAL_3" => some ⟨.e, .setLocal (some 3)⟩
-  | "SET_LOCAL_4" => some ⟨.e, .setLocal (some 4)⟩
-  | "SET_LOCAL8" => some ⟨.u8, .setLocal none⟩
-  | "SET_LOCAL16" => some ⟨.u16, .setLocal none⟩
-  | "GET_LOCAL_1" => some ⟨.e, .getLocal (some 1)⟩
-  | "GET_LOCAL_2" => some ⟨.e, .getLocal (some 2)⟩
-  | "GET_LOCAL_3" => some ⟨.e, .getLocal (some 3)⟩
-  | "GET_LOCAL_4" => some ⟨.e, .getLocal (some 4)⟩
-  | "GET_LOCAL8" => some ⟨.u8, .getLocal none⟩
-  | "GET_LOCAL16" => some ⟨.u16, .getLocal none⟩
-  | "BOX_LOCAL8" => some ⟨.u8u8, .boxLocal⟩
-  | "BOX_LOCAL16" => some ⟨.u16u8, .boxLocal⟩
-  | "JUMP_UNLESS_LE" => some ⟨.u16, .cmpJump true⟩
-  | "JUMP_UNLESS_LT" => some ⟨.u16, .cmpJump true⟩
-  | "JUMP_UNLESS_GE" => some ⟨.u16, .cmpJump true⟩
-  | "JUMP_UNLESS_GT" => some ⟨.u16, .cmpJump true⟩
-  | "JUMP_UNLESS_EQ" => some ⟨.u16, .cmpJump false⟩
-  | "JUMP_UNLESS_ILE" => some ⟨.u16, .cmpJump false⟩
-  | "JUMP_UNLESS_ILT" => some ⟨.u16, .cmpJump false⟩
-  | "JUMP_UNLESS_IGE" => some ⟨.u16, .cmpJump false⟩
-  | "JUMP_UNLESS_IGT" => some ⟨.u16, .cmpJump false⟩
-  | "JUMP_UNLESS_IEQ" => some ⟨.u16, .cmpJump false⟩
-  | "JUMP_UNLESS_NIL" => some ⟨.u16, .condJump .notNil true⟩
-  | "JUMP_UNLESS_NNP" => some ⟨.u16, .condJump .notNil false⟩
-  | "JUMP_UNLESS_UNP" => some ⟨.u16, .condJump .notUndef false⟩
-  | "JUMP_UNLESS_UNDEF" => some ⟨.u16, .condJump .notUndef true⟩
-  | "JUMP_UNLESS" => some ⟨.u16, .condJump .falsy true⟩
-  | "JUMP_UNLESS_NP" => some ⟨.u16, .condJump .falsy false⟩
-  | "JUMP" => some ⟨.u16, .jump⟩
-  | "JUMP_IF" => some ⟨.u16, .condJump .truthy true⟩
-  | "JUMP_IF_NP" => some ⟨.u16, .condJump .truthy false⟩
-  | "JUMP_IF_IEQ" => some ⟨.u16, .cmpJump false⟩
-  | "JUMP_IF_EQ" => some ⟨.u16, .cmpJump false⟩
-  | "LOOP" => some ⟨.u16, .loop⟩
-  | "JUMP_IF_NIL" => some ⟨.u16, .condJump .isNil true⟩
-  | "JUMP_IF_NIL_NP" => some ⟨.u16, .condJump .isNil false⟩
-  | "RBITSHIFT" => some bin | "RBITSHIFT_INT" => some binNT | "LOGIC_RBITSHIFT" => some bin
-  | "LBITSHIFT" => some bin | "LBITSHIFT_INT" => some binNT | "LOGIC_LBITSHIFT" => some bin
-  | "BITWISE_AND" => some bin | "BITWISE_AND_INT" => some binNT
-  | "BITWISE_OR" => some bin | "BITWISE_OR_INT" => some binNT
-  | "BITWISE_XOR" => some bin | "BITWISE_XOR_INT" => some binNT
-  | "MODULO" => some bin | "MODULO_INT" => some ⟨.e, .stack 2 1 [(2, 0)]⟩ | "MODULO_FLOAT" => some binNT
-  | "EQUAL" => some bin | "EQUAL_INT" => some binNT | "EQUAL_FLOAT" => some binNT
-  | "STRICT_EQUAL" => some binNT
-  | "GREATER" => some bin | "GREATER_INT" => some binNT | "GREATER_FLOAT" => some binNT
-  | "GREATER_EQUAL" => some bin | "GREATER_EQUAL_I" => some binNT | "GREATER_EQUAL_F" => some binNT
-  | "LESS" => some bin | "LESS_INT" => some binNT | "LESS_FLOAT" => some binNT
-  | "LESS_EQUAL" => some bin | "LESS_EQUAL_INT" => some binNT | "LESS_EQUAL_FLOAT" => some binNT
-  | "NOT_EQUAL" => some bin | "NOT_EQUAL_INT" => some binNT | "NOT_EQUAL_FLOAT" => some binNT
-  | "STRICT_NOT_EQUAL" => some binNT
-  | "INIT_NAMESPACE" => some (S 2 1 [(2, 1)])
-  | "SELF" => some ⟨.e, .getLocal (some 0)⟩
-  | "DEF_METHOD" => some (S 3 1)
-  | "UNDEFINED" => some ⟨.e, .pushv .undef⟩
-  | "GET_CLASS" => some unNT
-  | "CALL_METHOD_TCO8" => some ⟨.u8, .call .dynTco⟩
-  | "CALL_METHOD_TCO16" => some ⟨.u16, .call .dynTco⟩
-  | "CALL_METHOD8" => some ⟨.u8, .call .dyn⟩
-  | "CALL_METHOD16" => some ⟨.u16, .call .dyn⟩
-  | "CALL_METHOD_BC8" => some ⟨.u8, .call .bc⟩
-  | "CALL_METHOD_BC16" => some ⟨.u16, .call .bc⟩
-  | "CALL_METHOD_NT8" => some ⟨.u8, .call .nt⟩
-  | "CALL_METHOD_NT16" => some ⟨.u16, .call .nt⟩
-  | "CALL8" => some ⟨.u8, .call .callObj⟩
-  | "CALL16" => some ⟨.u16, .call .callObj⟩
-  | "INCLUDE" => some (S 2 0 [(2, 0)])
-  | "GET_SINGLETON" => some ⟨.e, .stack 1 1 [(1, 0)]⟩
-  | "COMPARE" => some bin
-  | "DOC_COMMENT" => some ⟨.e, .invalid⟩
-  | "DEF_GETTER" => some (S 3 1)
-  | "DEF_SETTER" => some (S 3 1)
-  | "RETURN_FIRST_ARG" => some ⟨.e, .retLocal 1⟩
-  | "INSTANTIATE8" => some ⟨.u8, .instantiate⟩
-  | "INSTANTIATE16" => some ⟨.u16, .instantiate⟩
-  | "RETURN_SELF" => some ⟨.e, .retLocal 0⟩
-  | "GET_IVAR_0" => some push1 | "GET_IVAR_1" => some push1 | "GET_IVAR_2" => some push1
-  | "GET_IVAR8" => some ⟨.u8, .stack 0 1 []⟩
-  | "GET_IVAR16" => some ⟨.u16, .stack 0 1 []⟩
-  | "GET_IVAR_NAME16" => some ⟨.u16, .symOp 0 1 [(0, 0)]⟩
-  | "SET_IVAR_0" => some (S 1 0) | "SET_IVAR_1" => some (S 1 0) | "SET_IVAR_2" => some (S 1 0)
-  | "SET_IVAR8" => some ⟨.u8, .stack 1 0 []⟩
-  | "SET_IVAR16" => some ⟨.u16, .stack 1 0 []⟩
-  | "SET_IVAR_NAME16" => some ⟨.u16, .symOp 1 0 [(1, 0)]⟩
-  | "NEW_ARRAY_TUPLE8" => some ⟨.u8, .newColl 1 1 []⟩
-  | "NEW_ARRAY_TUPLE16" => some ⟨.u16, .newColl 1 1 []⟩
-  | "APPEND" => some ⟨.e, .stack 2 1 [(1, 0)]⟩
-  | "COPY" => some unNT
-  | "SUBSCRIPT" => some bin
-  | "SUBSCRIPT_SET" => some ⟨.e, .stack 3 1 [(2, 0)]⟩
-  | "APPEND_AT" => some ⟨.e, .stack 3 1 [(2, 0)]⟩
-  | "NEW_ARRAY_LIST8" => some ⟨.u8, .newColl 2 1 [(0, 0)]⟩
-  | "NEW_ARRAY_LIST16" => some ⟨.u16, .newColl 2 1 [(0, 0)]⟩
-  | "GET_ITERATOR" => some unNT
-  | "FOR_IN_BUILTIN" => some ⟨.u16, .forIn⟩
-  | "FOR_IN" => some ⟨.u16, .forIn⟩
-  | "NEXT8" => some ⟨.u8, .call .next⟩
-  | "NEXT16" => some ⟨.u16, .call .next⟩
-  | "NEW_STRING8" => some ⟨.u8, .newColl 0 1 [(0, 0)]⟩
-  | "NEW_STRING16" => some ⟨.u16, .newColl 0 1 [(0, 0)]⟩
-  | "NEW_HASH_MAP8" => some ⟨.u8, .newColl 2 2 [(0, 0)]⟩
-  | "NEW_HASH_MAP16" => some ⟨.u16, .newColl 2 2 [(0, 0)]⟩
-  | "MAP_SET" => some ⟨.e, .stack 3 1 [(2, 0)]⟩
-  | "NEW_HASH_RECORD8" => some ⟨.u8, .newColl 1 2 [(0, 0)]⟩
-  | "NEW_HASH_RECORD16" => some ⟨.u16, .newColl 1 2 [(0, 0)]⟩
-  | "LAX_EQUAL" => some bin | "LAX_NOT_EQUAL" => some bin
-  | "NEW_REGEX8" => some ⟨.u8u8, .newRegex⟩
-  | "NEW_REGEX16" => some ⟨.u8u16, .newRegex⟩
-  | "BITWISE_AND_NOT" => some bin
-  | "UNARY_PLUS" => some un
-  | "INCREMENT" => some un | "INCREMENT_INT" => some unNT
-  | "DECREMENT" => some un | "DECREMENT_INT" => some unNT
-  | "DUP" => some ⟨.e, .dup⟩
-  | "DUP_2" => some ⟨.e, .dup2⟩
-  | "DUP_SECOND" => some ⟨.e, .dupSecond⟩
-  | "POP_2_SKIP_ONE" => some ⟨.e, .pop2SkipOne⟩
-  | "NEW_SYMBOL8" => some ⟨.u8, .newColl 0 1 [(0, 0)]⟩
-  | "NEW_SYMBOL16" => some ⟨.u16, .newColl 0 1 [(0, 0)]⟩
-  | "SWAP" => some ⟨.e, .swap⟩
-  | "NEW_RANGE" => some ⟨.u8, .newRange⟩
-  | "SET_SUPERCLASS" => some (S 2 0)
-  | "AS" => some ⟨.e, .as_⟩
-  | "MUST" => some ⟨.e, .must⟩
-  | "INSTANCE_OF" => some ⟨.e, .stack 2 1 [(2, 0)]⟩
-  | "IS_A" => some ⟨.e, .stack 2 1 [(2, 0)]⟩
-  | "POP_SKIP_ONE" => some ⟨.e, .popSkipOne⟩
-  | "INSPECT_STACK" => some (S 0 0)
-  | "NEW_HASH_SET8" => some ⟨.u8, .newColl 2 1 [(0, 0)]⟩
-  | "NEW_HASH_SET16" => some ⟨.u16, .newColl 2 1 [(0, 0)]⟩
-  | "THROW" => some ⟨.e, .throw⟩
-  | "RETHROW" => some ⟨.e, .rethrow⟩
-  | "RETURN_FINALLY" => some ⟨.e, .retFinally⟩
-  | "JUMP_TO_FINALLY" => some ⟨.e, .jumpToFinally⟩
-  | "CLOSURE" => some ⟨.closure, .closure⟩
-  | "CLOSED_CLOSURE" => some ⟨.closure, .closure⟩
-  | "SET_UPVALUE_0" => some ⟨.e, .setUp (some 0)⟩
-  | "SET_UPVALUE_1" => some ⟨.e, .setUp (some 1)⟩
-  | "SET_UPVALUE8" => some ⟨.u8, .setUp none⟩
-  | "SET_UPVALUE16" => some ⟨.u16, .setUp none⟩
-  | "GET_UPVALUE_0" => some ⟨.e, .getUp (some 0)⟩
-  | "GET_UPVALUE_1" => some ⟨.e, .getUp (some 1)⟩
-  | "GET_UPVALUE8" => some ⟨.u8, .getUp none⟩
-  | "GET_UPVALUE16" => some ⟨.u16, .getUp none⟩
-  | "CLOSE_UPVALUES_TO_1" => some ⟨.e, .closeUp (some 1)⟩
-  | "CLOSE_UPVALUES_TO_2" => some ⟨.e, .closeUp (some 2)⟩
-  | "CLOSE_UPVALUES_TO_3" => some ⟨.e, .closeUp (some 3)⟩
-  | "CLOSE_UPVALUES_TO8" => some ⟨.u8, .closeUp none⟩
-  | "CLOSE_UPVALUES_TO16" => some ⟨.u16, .closeUp none⟩
-  | "DEF_NAMESPACE" => some ⟨.u8, .defNamespace⟩
-  | "GET_CONST8" => some ⟨.u8, .symOp 0 1 [(0, 0)]⟩
-  | "GET_CONST16" => some ⟨.u16, .symOp 0 1 [(0, 0)]⟩
-  | "DEF_CONST" => some (S 3 0)
-  | "EXEC" => some (S 1 1 [(1, 1)])
-  | "INT_M1" => some ⟨.e, .pushv (.int (-1))⟩
-  | "INT_0" => some ⟨.e, .pushv (.int 0)⟩
-  | "INT_1" => some ⟨.e, .pushv (.int 1)⟩
-  | "INT_2" => some ⟨.e, .pushv (.int 2)⟩
-  | "INT_3" => some ⟨.e, .pushv (.int 3)⟩
-  | "INT_4" => some ⟨.e, .pushv (.int 4)⟩
-  | "INT_5" => some ⟨.e, .pushv (.int 5)⟩
-  | "LOAD_INT_8" => some ⟨.s8, .pushInt⟩
-  | "LOAD_INT_16" => some ⟨.s16, .pushInt⟩
-  | "LOAD_INT64_8" => some ⟨.s8, .stack 0 1 []⟩
-  | "LOAD_UINT64_8" => some ⟨.u8, .stack 0 1 []⟩
-  | "LOAD_INT32_8" => some ⟨.s8, .stack 0 1 []⟩
-  | "LOAD_UINT32_8" => some ⟨.u8, .stack 0 1 []⟩
-  | "LOAD_INT16_8" => some ⟨.s8, .stack 0 1 []⟩
-  | "LOAD_UINT16_8" => some ⟨.u8, .stack 0 1 []⟩
-  | "LOAD_INT8" => some ⟨.s8, .stack 0 1 []⟩
-  | "LOAD_UINT8" => some ⟨.u8, .stack 0 1 []⟩
-  | "LOAD_CHAR_8" => some ⟨.u8, .stack 0 1 []⟩
-  | "FLOAT_0" => some push1 | "FLOAT_1" => some push1 | "FLOAT_2" => some push1
-  | "GENERATOR" => some ⟨.e, .generator⟩
-  | "YIELD" => some ⟨.e, .yield⟩
-  | "STOP_ITERATION" => some ⟨.e, .stopIteration⟩
-  | "GO" => some unNT
-  | "PROMISE" => some ⟨.e, .promise⟩
-  | "AWAIT" => some ⟨.e, .await⟩
-  | "AWAIT_RESULT" => some ⟨.e, .awaitResult⟩
-  | "AWAIT_SYNC" => some ⟨.e, .awaitSync⟩
-  | "DEF_IVARS" => some (S 2 0 [(2, 0)])
-  | "BREAKPOINT" => some unNT
-  | "SELECT" => some ⟨.e, .select⟩
-  | "CHECK_ABORT" => some ⟨.e, .checkAbort⟩
-  | "EXEC_DEFER" => some ⟨.e, .execDefer⟩
-  | _ => none
+Each row is the corresponding `case bytecode.X:` arm of `Thread.run` (vm/thread.go). The order is
+irrelevant: rows are found by name (`semOf`), or by the position hint the probe table carries,
+which is checked against the name (`Decode.opTable`, `C29.rowAgrees`). -/
+def semTable : List (String × Sem) := [
+  ("NOOP", (S 0 0)),
+  ("RETURN", ⟨.e, .ret⟩),
+  ("LOAD_VALUE_0", ⟨.e, .loadValue (some 0)⟩),
+  ("LOAD_VALUE_1", ⟨.e, .loadValue (some 1)⟩),
+  ("LOAD_VALUE_2", ⟨.e, .loadValue (some 2)⟩),
+  ("LOAD_VALUE_3", ⟨.e, .loadValue (some 3)⟩),
+  ("LOAD_VALUE8", ⟨.u8, .loadValue none⟩),
+  ("LOAD_VALUE16", ⟨.u16, .loadValue none⟩),
+  ("ADD", bin),
+  ("ADD_INT", binNT),
+  ("ADD_FLOAT", binNT),
+  ("SUBTRACT", bin),
+  ("SUBTRACT_INT", binNT),
+  ("SUBTRACT_FLOAT", binNT),
+  ("MULTIPLY", bin),
+  ("MULTIPLY_INT", binNT),
+  ("MULTIPLY_FLOAT", binNT),
+  ("DIVIDE", bin),
+  ("DIVIDE_INT", ⟨.e, .stack 2 1 [(2, 0)]⟩),
+  ("DIVIDE_FLOAT", binNT),
+  ("EXPONENTIATE", bin),
+  ("EXPONENTIATE_INT", binNT),
+  ("NEGATE", un),
+  ("NEGATE_INT", unNT),
+  ("NEGATE_FLOAT", unNT),
+  ("NOT", unNT),
+  ("BITWISE_NOT", un),
+  ("TRUE", ⟨.e, .pushv .tru⟩),
+  ("FALSE", ⟨.e, .pushv .fls⟩),
+  ("NIL", ⟨.e, .pushv .nil⟩),
+  ("POP", (S 1 0)),
+  ("POP_2", (S 2 0)),
+  ("PREP_LOCALS8", ⟨.u8, .prepLocals⟩),
+  ("PREP_LOCALS16", ⟨.u16, .prepLocals⟩),
+  ("SET_LOCAL_1", ⟨.e, .setLocal (some 1)⟩),
+  ("SET_LOCAL_2", ⟨.e, .setLocal (some 2)⟩),
+  ("SET_LOCAL_3", ⟨.e, .setLocal (some 3)⟩),
+  ("SET_LOCAL_4", ⟨.e, .setLocal (some 4)⟩),
+  ("SET_LOCAL8", ⟨.u8, .setLocal none⟩),
+  ("SET_LOCAL16", ⟨.u16, .setLocal none⟩),
+  ("GET_LOCAL_1", ⟨.e, .getLocal (some 1)⟩),
+  ("GET_LOCAL_2", ⟨.e, .getLocal (some 2)⟩),
+  ("GET_LOCAL_3", ⟨.e, .getLocal (some 3)⟩),
+  ("GET_LOCAL_4", ⟨.e, .getLocal (some 4)⟩),
+  ("GET_LOCAL8", ⟨.u8, .getLocal none⟩),
+  ("GET_LOCAL16", ⟨.u16, .getLocal none⟩),
+  ("BOX_LOCAL8", ⟨.u8u8, .boxLocal⟩),
+  ("BOX_LOCAL16", ⟨.u16u8, .boxLocal⟩),
+  ("JUMP_UNLESS_LE", ⟨.u16, .cmpJump true⟩),
+  ("JUMP_UNLESS_LT", ⟨.u16, .cmpJump true⟩),
+  ("JUMP_UNLESS_GE", ⟨.u16, .cmpJump true⟩),
+  ("JUMP_UNLESS_GT", ⟨.u16, .cmpJump true⟩),
+  ("JUMP_UNLESS_EQ", ⟨.u16, .cmpJump false⟩),
+  ("JUMP_UNLESS_ILE", ⟨.u16, .cmpJump false⟩),
+  ("JUMP_UNLESS_ILT", ⟨.u16, .cmpJump false⟩),
+  ("JUMP_UNLESS_IGE", ⟨.u16, .cmpJump false⟩),
+  ("JUMP_UNLESS_IGT", ⟨.u16, .cmpJump false⟩),
+  ("JUMP_UNLESS_IEQ", ⟨.u16, .cmpJump false⟩),
+  ("JUMP_UNLESS_NIL", ⟨.u16, .condJump .notNil true⟩),
+  ("JUMP_UNLESS_NNP", ⟨.u16, .condJump .notNil false⟩),
+  ("JUMP_UNLESS_UNP", ⟨.u16, .condJump .notUndef false⟩),
+  ("JUMP_UNLESS_UNDEF", ⟨.u16, .condJump .notUndef true⟩),
+  ("JUMP_UNLESS", ⟨.u16, .condJump .falsy true⟩),
+  ("JUMP_UNLESS_NP", ⟨.u16, .condJump .falsy false⟩),
+  ("JUMP", ⟨.u16, .jump⟩),
+  ("JUMP_IF", ⟨.u16, .condJump .truthy true⟩),
+  ("JUMP_IF_NP", ⟨.u16, .condJump .truthy false⟩),
+  ("JUMP_IF_IEQ", ⟨.u16, .cmpJump false⟩),
+  ("JUMP_IF_EQ", ⟨.u16, .cmpJump false⟩),
+  ("LOOP", ⟨.u16, .loop⟩),
+  ("JUMP_IF_NIL", ⟨.u16, .condJump .isNil true⟩),
+  ("JUMP_IF_NIL_NP", ⟨.u16, .condJump .isNil false⟩),
+  ("RBITSHIFT", bin),
+  ("RBITSHIFT_INT", binNT),
+  ("LOGIC_RBITSHIFT", bin),
+  ("LBITSHIFT", bin),
+  ("LBITSHIFT_INT", binNT),
+  ("LOGIC_LBITSHIFT", bin),
+  ("BITWISE_AND", bin),
+  ("BITWISE_AND_INT", binNT),
+  ("BITWISE_OR", bin),
+  ("BITWISE_OR_INT", binNT),
+  ("BITWISE_XOR", bin),
+  ("BITWISE_XOR_INT", binNT),
+  ("MODULO", bin),
+  ("MODULO_INT", ⟨.e, .stack 2 1 [(2, 0)]⟩),
+  ("MODULO_FLOAT", binNT),
+  ("EQUAL", bin),
+  ("EQUAL_INT", binNT),
+  ("EQUAL_FLOAT", binNT),
+  ("STRICT_EQUAL", binNT),
+  ("GREATER", bin),
+  ("GREATER_INT", binNT),
+  ("GREATER_FLOAT", binNT),
+  ("GREATER_EQUAL", bin),
+  ("GREATER_EQUAL_I", binNT),
+  ("GREATER_EQUAL_F", binNT),
+  ("LESS", bin),
+  ("LESS_INT", binNT),
+  ("LESS_FLOAT", binNT),
+  ("LESS_EQUAL", bin),
+  ("LESS_EQUAL_INT", binNT),
+  ("LESS_EQUAL_FLOAT", binNT),
+  ("NOT_EQUAL", bin),
+  ("NOT_EQUAL_INT", binNT),
+  ("NOT_EQUAL_FLOAT", binNT),
+  ("STRICT_NOT_EQUAL", binNT),
+  ("INIT_NAMESPACE", (S 2 1 [(2, 1)])),
+  ("SELF", ⟨.e, .getLocal (some 0)⟩),
+  ("DEF_METHOD", (S 3 1)),
+  ("UNDEFINED", ⟨.e, .pushv .undef⟩),
+  ("GET_CLASS", unNT),
+  ("CALL_METHOD_TCO8", ⟨.u8, .call .dynTco⟩),
+  ("CALL_METHOD_TCO16", ⟨.u16, .call .dynTco⟩),
+  ("CALL_METHOD8", ⟨.u8, .call .dyn⟩),
+  ("CALL_METHOD16", ⟨.u16, .call .dyn⟩),
+  ("CALL_METHOD_BC8", ⟨.u8, .call .bc⟩),
+  ("CALL_METHOD_BC16", ⟨.u16, .call .bc⟩),
+  ("CALL_METHOD_NT8", ⟨.u8, .call .nt⟩),
+  ("CALL_METHOD_NT16", ⟨.u16, .call .nt⟩),
+  ("CALL8", ⟨.u8, .call .callObj⟩),
+  ("CALL16", ⟨.u16, .call .callObj⟩),
+  ("INCLUDE", (S 2 0 [(2, 0)])),
+  ("GET_SINGLETON", ⟨.e, .stack 1 1 [(1, 0)]⟩),
+  ("COMPARE", bin),
+  ("DOC_COMMENT", ⟨.e, .invalid⟩),
+  ("DEF_GETTER", (S 3 1)),
+  ("DEF_SETTER", (S 3 1)),
+  ("RETURN_FIRST_ARG", ⟨.e, .retLocal 1⟩),
+  ("INSTANTIATE8", ⟨.u8, .instantiate⟩),
+  ("INSTANTIATE16", ⟨.u16, .instantiate⟩),
+  ("RETURN_SELF", ⟨.e, .retLocal 0⟩),
+  ("GET_IVAR_0", push1),
+  ("GET_IVAR_1", push1),
+  ("GET_IVAR_2", push1),
+  ("GET_IVAR8", ⟨.u8, .stack 0 1 []⟩),
+  ("GET_IVAR16", ⟨.u16, .stack 0 1 []⟩),
+  ("GET_IVAR_NAME16", ⟨.u16, .symOp 0 1 [(0, 0)]⟩),
+  ("SET_IVAR_0", (S 1 0)),
+  ("SET_IVAR_1", (S 1 0)),
+  ("SET_IVAR_2", (S 1 0)),
+  ("SET_IVAR8", ⟨.u8, .stack 1 0 []⟩),
+  ("SET_IVAR16", ⟨.u16, .stack 1 0 []⟩),
+  ("SET_IVAR_NAME16", ⟨.u16, .symOp 1 0 [(1, 0)]⟩),
+  ("NEW_ARRAY_TUPLE8", ⟨.u8, .newColl 1 1 []⟩),
+  ("NEW_ARRAY_TUPLE16", ⟨.u16, .newColl 1 1 []⟩),
+  ("APPEND", ⟨.e, .stack 2 1 [(1, 0)]⟩),
+  ("COPY", unNT),
+  ("SUBSCRIPT", bin),
+  ("SUBSCRIPT_SET", ⟨.e, .stack 3 1 [(2, 0)]⟩),
+  ("APPEND_AT", ⟨.e, .stack 3 1 [(2, 0)]⟩),
+  ("NEW_ARRAY_LIST8", ⟨.u8, .newColl 2 1 [(0, 0)]⟩),
+  ("NEW_ARRAY_LIST16", ⟨.u16, .newColl 2 1 [(0, 0)]⟩),
+  ("GET_ITERATOR", unNT),
+  ("FOR_IN_BUILTIN", ⟨.u16, .forIn⟩),
+  ("FOR_IN", ⟨.u16, .forIn⟩),
+  ("NEXT8", ⟨.u8, .call .next⟩),
+  ("NEXT16", ⟨.u16, .call .next⟩),
+  ("NEW_STRING8", ⟨.u8, .newColl 0 1 [(0, 0)]⟩),
+  ("NEW_STRING16", ⟨.u16, .newColl 0 1 [(0, 0)]⟩),
+  ("NEW_HASH_MAP8", ⟨.u8, .newColl 2 2 [(0, 0)]⟩),
+  ("NEW_HASH_MAP16", ⟨.u16, .newColl 2 2 [(0, 0)]⟩),
+  ("MAP_SET", ⟨.e, .stack 3 1 [(2, 0)]⟩),
+  ("NEW_HASH_RECORD8", ⟨.u8, .newColl 1 2 [(0, 0)]⟩),
+  ("NEW_HASH_RECORD16", ⟨.u16, .newColl 1 2 [(0, 0)]⟩),
+  ("LAX_EQUAL", bin),
+  ("LAX_NOT_EQUAL", bin),
+  ("NEW_REGEX8", ⟨.u8u8, .newRegex⟩),
+  ("NEW_REGEX16", ⟨.u8u16, .newRegex⟩),
+  ("BITWISE_AND_NOT", bin),
+  ("UNARY_PLUS", un),
+  ("INCREMENT", un),
+  ("INCREMENT_INT", unNT),
+  ("DECREMENT", un),
+  ("DECREMENT_INT", unNT),
+  ("DUP", ⟨.e, .dup⟩),
+  ("DUP_2", ⟨.e, .dup2⟩),
+  ("DUP_SECOND", ⟨.e, .dupSecond⟩),
+  ("POP_2_SKIP_ONE", ⟨.e, .pop2SkipOne⟩),
+  ("NEW_SYMBOL8", ⟨.u8, .newColl 0 1 [(0, 0)]⟩),
+  ("NEW_SYMBOL16", ⟨.u16, .newColl 0 1 [(0, 0)]⟩),
+  ("SWAP", ⟨.e, .swap⟩),
+  ("NEW_RANGE", ⟨.u8, .newRange⟩),
+  ("SET_SUPERCLASS", (S 2 0)),
+  ("AS", ⟨.e, .as_⟩),
+  ("MUST", ⟨.e, .must⟩),
+  ("INSTANCE_OF", ⟨.e, .stack 2 1 [(2, 0)]⟩),
+  ("IS_A", ⟨.e, .stack 2 1 [(2, 0)]⟩),
+  ("POP_SKIP_ONE", ⟨.e, .popSkipOne⟩),
+  ("INSPECT_STACK", (S 0 0)),
+  ("NEW_HASH_SET8", ⟨.u8, .newColl 2 1 [(0, 0)]⟩),
+  ("NEW_HASH_SET16", ⟨.u16, .newColl 2 1 [(0, 0)]⟩),
+  ("THROW", ⟨.e, .throw⟩),
+  ("RETHROW", ⟨.e, .rethrow⟩),
+  ("RETURN_FINALLY", ⟨.e, .retFinally⟩),
+  ("JUMP_TO_FINALLY", ⟨.e, .jumpToFinally⟩),
+  ("CLOSURE", ⟨.closure, .closure⟩),
+  ("CLOSED_CLOSURE", ⟨.closure, .closure⟩),
+  ("SET_UPVALUE_0", ⟨.e, .setUp (some 0)⟩),
+  ("SET_UPVALUE_1", ⟨.e, .setUp (some 1)⟩),
+  ("SET_UPVALUE8", ⟨.u8, .setUp none⟩),
+  ("SET_UPVALUE16", ⟨.u16, .setUp none⟩),
+  ("GET_UPVALUE_0", ⟨.e, .getUp (some 0)⟩),
+  ("GET_UPVALUE_1", ⟨.e, .getUp (some 1)⟩),
+  ("GET_UPVALUE8", ⟨.u8, .getUp none⟩),
+  ("GET_UPVALUE16", ⟨.u16, .getUp none⟩),
+  ("CLOSE_UPVALUES_TO_1", ⟨.e, .closeUp (some 1)⟩),
+  ("CLOSE_UPVALUES_TO_2", ⟨.e, .closeUp (some 2)⟩),
+  ("CLOSE_UPVALUES_TO_3", ⟨.e, .closeUp (some 3)⟩),
+  ("CLOSE_UPVALUES_TO8", ⟨.u8, .closeUp none⟩),
+  ("CLOSE_UPVALUES_TO16", ⟨.u16, .closeUp none⟩),
+  ("DEF_NAMESPACE", ⟨.u8, .defNamespace⟩),
+  ("GET_CONST8", ⟨.u8, .symOp 0 1 [(0, 0)]⟩),
+  ("GET_CONST16", ⟨.u16, .symOp 0 1 [(0, 0)]⟩),
+  ("DEF_CONST", (S 3 0)),
+  ("EXEC", (S 1 1 [(1, 1)])),
+  ("INT_M1", ⟨.e, .pushv (.int (-1))⟩),
+  ("INT_0", ⟨.e, .pushv (.int 0)⟩),
+  ("INT_1", ⟨.e, .pushv (.int 1)⟩),
+  ("INT_2", ⟨.e, .pushv (.int 2)⟩),
+  ("INT_3", ⟨.e, .pushv (.int 3)⟩),
+  ("INT_4", ⟨.e, .pushv (.int 4)⟩),
+  ("INT_5", ⟨.e, .pushv (.int 5)⟩),
+  ("LOAD_INT_8", ⟨.s8, .pushInt⟩),
+  ("LOAD_INT_16", ⟨.s16, .pushInt⟩),
+  ("LOAD_INT64_8", ⟨.s8, .stack 0 1 []⟩),
+  ("LOAD_UINT64_8", ⟨.u8, .stack 0 1 []⟩),
+  ("LOAD_INT32_8", ⟨.s8, .stack 0 1 []⟩),
+  ("LOAD_UINT32_8", ⟨.u8, .stack 0 1 []⟩),
+  ("LOAD_INT16_8", ⟨.s8, .stack 0 1 []⟩),
+  ("LOAD_UINT16_8", ⟨.u8, .stack 0 1 []⟩),
+  ("LOAD_INT8", ⟨.s8, .stack 0 1 []⟩),
+  ("LOAD_UINT8", ⟨.u8, .stack 0 1 []⟩),
+  ("LOAD_CHAR_8", ⟨.u8, .stack 0 1 []⟩),
+  ("FLOAT_0", push1),
+  ("FLOAT_1", push1),
+  ("FLOAT_2", push1),
+  ("GENERATOR", ⟨.e, .generator⟩),
+  ("YIELD", ⟨.e, .yield⟩),
+  ("STOP_ITERATION", ⟨.e, .stopIteration⟩),
+  ("GO", unNT),
+  ("PROMISE", ⟨.e, .promise⟩),
+  ("AWAIT", ⟨.e, .await⟩),
+  ("AWAIT_RESULT", ⟨.e, .awaitResult⟩),
+  ("AWAIT_SYNC", ⟨.e, .awaitSync⟩),
+  ("DEF_IVARS", (S 2 0 [(2, 0)])),
+  ("BREAKPOINT", unNT),
+  ("SELECT", ⟨.e, .select⟩),
+  ("CHECK_ABORT", ⟨.e, .checkAbort⟩),
+  ("EXEC_DEFER", ⟨.e, .execDefer⟩)
+]
+
+def semOf (name : String) : Option Sem := (semTable.find? (fun r => r.1 == name)).map (·.2)
 
 end Elk.Bytecode
